@@ -8,18 +8,57 @@ COMMON_ASSUMPTIONS = [
     "a violation is reported only after the solver's counterexample reproduced against the native build (go test -overlay)",
 ]
 
+NOT_APPLICABLE = {
+    "C16": "liveness over fault sequences and all interleavings of >= 4 goroutines per connection blocked in socket calls and in each other's rings: outside bounded symbolic execution (DESIGN.md section 6); the ring-level mechanisms teardown relies on are decided under C15",
+}
+
 CHECKS = {
+    "C03": {
+        "level_text": "every path of the real encoders/decoders (message package SSA) for all field values / input bytes within the byte bounds is executed symbolically against a reference codec written from the standard; length arithmetic of the fixed header for all 2^32 values; packet-id allocation as one inductive step from an arbitrary counter. Bounded model checking: complete inside the bounds, silent outside.",
+        "level_note": "trusted: go/ssa + engine semantics (cross-checked natively on every explored path), z3, the reference codec (harness/spec/speccodec.go); strings/payloads longer than the bounds are outside the claim",
+        "groups": [
+            {"pkg": "message", "run": "H03a_.*|H03d_.*", "flags": {"common": ["-unwind", "40"]}},
+            {"pkg": "message", "run": "H03b_.*",
+             "flags": {"common": ["-unwind", "40"],
+                       "quick": ["-bounds", "N03str=2,N03payload=3,N03topics=3,N03utopics=4,N03codes=4"],
+                       "thorough": ["-bounds", "N03str=3,N03payload=6,N03topics=4,N03utopics=5,N03codes=6"]},
+             "reach": ["C03.roundtrip"]},
+            {"pkg": "message", "run": "H03c_.*",
+             "flags": {"common": ["-unwind", "40"],
+                       "quick": ["-bounds", "N03c=9,N03csub=12,N03csuback=7,N03cconnect=18"],
+                       "thorough": ["-bounds", "N03c=14,N03csub=17,N03csuback=9,N03cconnect=24"]},
+             "reach": ["C03.accepted", "C03.wellformed"]},
+            {"pkg": "message", "run": "H03f_.*",
+             "flags": {"common": ["-unwind", "40"],
+                       "quick": ["-bounds", "N03f=10"],
+                       "thorough": ["-bounds", "N03f=14"]}},
+        ],
+        "bounds": {"quick": "header: all 2^32 remaining-length values x 14 types; setters->encode->decode: strings <= 2 bytes, payload <= 3, <= 3 SUBSCRIBE / 4 UNSUBSCRIBE filters, <= 4 return codes; decode->encode: every accepted exact frame of <= 9 bytes (CONNECT 18, (UN)SUBSCRIBE 12, SUBACK 7); automatic ids: every value of the 64-bit counter",
+                   "thorough": "as quick with strings <= 3, payload <= 6, 4/5 filters, 6 codes; frames <= 14 bytes (CONNECT 24, (UN)SUBSCRIBE 17, SUBACK 9)"},
+        "outside": ["string/payload contents beyond the byte bounds (lengths 127/128/16383/16384/65535 of LP strings and payloads are not executed byte-by-byte; the remaining-length arithmetic is covered for all values by H03a_header)",
+                    "more topic filters per packet than the bound",
+                    "CONNECT with user-name/password flag set and zero-length value (library documents 3.1 leniency): don't-care for the field-based re-encoding"],
+        "assumptions": ["oracle: reference codec harness/spec/speccodec.go written from MQTT 3.1.1 sections 2-3 (no code shared with the library)"],
+    },
     "C04": {
+        "level_text": "each decoder is executed symbolically on an input whose length (0..N) and every byte are solver variables, cap == len, so every index/slice instruction is a proof obligation; acceptance of every well-formed exact frame is checked against the reference decoder. Complete for all inputs up to N bytes.",
+        "level_note": "trusted: go/ssa + engine semantics (cross-checked natively on every explored path), z3, the reference decoder; inputs longer than N bytes are outside the claim",
         "groups": [
             {"pkg": "message", "run": "H04_.*",
              "flags": {"common": ["-unwind", "40"],
                        "quick": ["-bounds", "N04=10,N04suback=7,N04connect=18"],
                        "thorough": ["-bounds", "N04=16,N04suback=10,N04connect=26"]},
              "reach": ["C04.returned"]},
+            {"pkg": "message", "run": "H04a_.*",
+             "flags": {"common": ["-unwind", "40"],
+                       "quick": ["-bounds", "N04a=17,N04asuback=7,N04aconnect=18"],
+                       "thorough": ["-bounds", "N04a=20,N04asuback=10,N04aconnect=26"]},
+             "reach": ["C04.wellformed"]},
         ],
         "bounds": {"quick": "input length 0..10 bytes (SUBACK 0..7, CONNECT 0..18), all byte values, cap==len",
                    "thorough": "input length 0..16 bytes (SUBACK 0..10, CONNECT 0..26), all byte values, cap==len"},
-        "outside": ["inputs longer than the bound (length arithmetic for long packets is covered by C03's header/length harnesses)"],
-        "assumptions": [],
+        "outside": ["inputs longer than the bound (length arithmetic for long packets is covered by C03's header/length harnesses)",
+                    "acceptance half: packets outside the strict region of the reference decoder (non-minimal length encodings, packet id 0, reserved CONNECT combinations) are don't-care for acceptance, never for totality"],
+        "assumptions": ["oracle for 'valid packets accepted': reference decoder harness/spec/speccodec.go (strict region, exact frame)"],
     },
 }
